@@ -253,6 +253,8 @@ def valid_session(rng, tree, n):
     for _ in range(n):
         r = rng.below(12)
         p = rng.pick(PATHS12)
+        if rng.coin(1, 10):
+            p = f"{p}.conflict-{blake3_hex([rng.pick(CONTENTS)])[0][:12]}"      # a user path that looks like a conflict copy (D13)
         if r < 2:
             parts.append((frame(req_list()), "list"))
         elif r < 4:
